@@ -145,6 +145,26 @@ def statIsDir (fs : FS) (p : Segs) : Bool :=
   | some l => fs.isDirAt l
   | none => false
 
+/-- the `TargetCompression` set derived from the request (`get_encoding`, tile_server.rs:303-317):
+    does the client accept brotli / gzip -/
+structure Accept where
+  br : Bool
+  gz : Bool
+deriving Repr, DecidableEq
+
+def Accept.none : Accept := ⟨false, false⟩
+
+/-- `haystack.contains(needle)` on strings -/
+def hasSub (needle : Str) : Str → Bool
+  | [] => needle.isEmpty
+  | c :: cs => needle.isPrefixOf (c :: cs) || hasSub needle cs
+
+/-- `get_encoding`: substring tests on the `accept-encoding` value (`none` = header absent) -/
+def acceptOf (hdr : Option Str) : Accept :=
+  match hdr with
+  | Option.none => Accept.none
+  | some v => ⟨hasSub ['b', 'r'] v, hasSub ['g', 'z', 'i', 'p'] v⟩
+
 /-- Outcome of the static handler. `panic` = the handler task panics (connection closed without
     a response). -/
 inductive Resp where
@@ -190,8 +210,9 @@ def folderGetOld (fs : FS) (root : Loc) (url : Url) : Resp :=
   guardedOpen fs root (withIndex fs (joinRel root url.tail))
 
 /-- `Folder::get_data` as it is now (1eee327c): a path with a `ParentDir` component is
-    rejected first. -/
-def folderGet (fs : FS) (root : Loc) (url : Url) : Resp :=
+    rejected first.  The `_accept` argument is ignored by the code: which file is read never
+    depends on the request headers. -/
+def folderGet (fs : FS) (root : Loc) (url : Url) (_acc : Accept) : Resp :=
   if hasParent (joinRel root url.tail) then .notFound
   else guardedOpen fs root (withIndex fs (joinRel root url.tail))
 
@@ -266,21 +287,19 @@ def tarAddMember (m : TarMap) (name : Str) (content : Nat) : TarMap :=
 def tarBuild (members : List (Str × Nat)) : TarMap :=
   members.foldl (fun m x => tarAddMember m x.1 x.2) []
 
-/-- `TarFile::get_data` with an `accept` set that contains neither brotli nor gzip (the harness
-    sends no `accept-encoding`): `un`, then `br`, then `gz` (static_source_tar.rs:146-172). -/
-def tarGet (m : TarMap) (url : Url) : Resp :=
+def firstSome (l : List (Option Nat)) : Resp :=
+  match l with
+  | [] => .notFound
+  | some v :: _ => .ok v
+  | Option.none :: rest => firstSome rest
+
+/-- `TarFile::get_data` (static_source_tar.rs:143-172): brotli if accepted and present, gzip if
+    accepted and present, then `un`, `br`, `gz`. -/
+def tarGet (m : TarMap) (url : Url) (acc : Accept) : Resp :=
   match m.lookup url.tail with
-  | none => .notFound
+  | Option.none => .notFound
   | some e =>
-    match e.un with
-    | some v => .ok v
-    | none =>
-      match e.br with
-      | some v => .ok v
-      | none =>
-        match e.gz with
-        | some v => .ok v
-        | none => .notFound
+    firstSome [if acc.br then e.br else Option.none, if acc.gz then e.gz else Option.none, e.un, e.br, e.gz]
 
 /-! ### `StaticSource` and the fallback route -/
 
@@ -294,41 +313,41 @@ structure Source where
   backend : Backend
 deriving Repr
 
-def Backend.get (fs : FS) (b : Backend) (url : Url) : Resp :=
+def Backend.get (fs : FS) (b : Backend) (url : Url) (acc : Accept) : Resp :=
   match b with
-  | .folder root => folderGet fs root url
-  | .tar m => tarGet m url
+  | .folder root => folderGet fs root url acc
+  | .tar m => tarGet m url acc
 
 /-- `StaticSource::get_data` (static_source.rs:39-45); `strip_prefix(..).unwrap()` cannot fail
     after `starts_with`, the `panic` branch is kept explicit. -/
-def Source.get (fs : FS) (s : Source) (url : Url) : Resp :=
+def Source.get (fs : FS) (s : Source) (url : Url) (acc : Accept) : Resp :=
   if url.startsWith s.pfx then
     match url.stripPrefix s.pfx with
     | none => .panic
-    | some u => s.backend.get fs u
+    | some u => s.backend.get fs u acc
   else .notFound
 
 /-- `uri.path()`: the request target up to `?` / `#` (origin-form targets). -/
 def uriPath (target : Str) : Str := target.takeWhile (fun c => c ≠ '?' && c ≠ '#')
 
-def firstHit (fs : FS) (url : Url) : List Source → Resp
+def firstHit (fs : FS) (url : Url) (acc : Accept) : List Source → Resp
   | [] => .notFound
   | s :: rest =>
-    match s.get fs url with
-    | .notFound => firstHit fs url rest
+    match s.get fs url acc with
+    | .notFound => firstHit fs url acc rest
     | r => r
 
 /-- `serve_static` (tile_server.rs:181-207) -/
-def serveStatic (fs : FS) (sources : List Source) (target : Str) : Resp :=
+def serveStatic (fs : FS) (acc : Accept) (sources : List Source) (target : Str) : Resp :=
   let url := Url.new (uriPath target)
   let url := if url.isDir then url.push sIndex else url
-  firstHit fs url sources
+  firstHit fs url acc sources
 
 /-- `add_static_source`: `Url::new(prefix).as_dir()` (serve.rs:118-133, tile_server.rs:66-72) -/
 def mkPrefix (p : Str) : Url := (Url.new p).asDir
 
 /-! ### line protocol
-`C07 <base> <entries> <sources> <targethex>`
+`C07 <base> <entries> <sources> <targethex> [<accept-encoding value, hex>]`
 * `base`     absolute directory, e.g. `/verif/.run/x/w`
 * `entries`  `;`-separated, relative to base: `d:<rel>` | `f:<rel>:<id>`   (`-` = none)
 * `sources`  `;`-separated: `F:<prefix>:<rel root>` | `T:<prefix>:<member>=<id>,…`
@@ -392,17 +411,24 @@ def showResp : Resp → String
   | .ok c => s!"200 {c}"
   | .panic => "closed"
 
+def handleWith (base entries sources target : String) (hdr : Option String) : String :=
+  let baseLoc : Loc := (splitSlash base.toList).filter (· ≠ [])
+  let ents := if entries == "-" then some [] else (splitOnChar ';' entries.toList).mapM (parseEntry baseLoc)
+  let srcs := (splitOnChar ';' sources.toList).mapM (parseSource baseLoc)
+  let acc : Option Accept := match hdr with
+    | Option.none => some Accept.none
+    | some h => (unhex h.toList).map (fun v => acceptOf (some v))
+  match ents, srcs, unhex target.toList, acc with
+  | some ents, some srcs, some t, some acc =>
+    let fs : FS := ((prefixes baseLoc).map (fun l => (l, Node.dir))) ++ ents
+    showResp (serveStatic fs acc srcs t)
+  | _, _, _, _ => "bad-op"
+
+/-- a fifth argument is the hex of the `accept-encoding` header value (absent = no header) -/
 def handle (args : List String) : String :=
   match args with
-  | [base, entries, sources, target] =>
-    let baseLoc : Loc := (splitSlash base.toList).filter (· ≠ [])
-    let ents := if entries == "-" then some [] else (splitOnChar ';' entries.toList).mapM (parseEntry baseLoc)
-    let srcs := (splitOnChar ';' sources.toList).mapM (parseSource baseLoc)
-    match ents, srcs, unhex target.toList with
-    | some ents, some srcs, some t =>
-      let fs : FS := ((prefixes baseLoc).map (fun l => (l, Node.dir))) ++ ents
-      showResp (serveStatic fs srcs t)
-    | _, _, _ => "bad-op"
+  | [base, entries, sources, target] => handleWith base entries sources target Option.none
+  | [base, entries, sources, target, hdr] => handleWith base entries sources target (some hdr)
   | _ => "bad-op"
 
 end VtModel.Path
